@@ -18,11 +18,12 @@ pub struct Opts {
     pub boundary_pct: u64,
     pub revb_pct: u64,
     pub query_pct: u64,
+    pub approve_pct: u64,
     pub drain: bool,
 }
 impl Opts {
     pub fn for_prop(p: &'static str) -> Opts {
-        let mut o = Opts { focus: p, exit_probes: false, auth_pct: 0, boundary_pct: 0, revb_pct: 0, query_pct: 0, drain: false };
+        let mut o = Opts { focus: p, exit_probes: false, auth_pct: 0, boundary_pct: 0, revb_pct: 0, query_pct: 0, approve_pct: 0, drain: false };
         match p {
             "C01" => { o.drain = true; o.revb_pct = 3; }
             "C02" => { o.boundary_pct = 3; }
@@ -30,9 +31,10 @@ impl Opts {
             "C04" => { o.revb_pct = 25; }
             "C05" => { o.auth_pct = 30; }
             "C06" => { o.exit_probes = true; }
+            "C08" => { o.approve_pct = 25; o.revb_pct = 3; o.boundary_pct = 2; }
             "C16" => { o.query_pct = 40; }
             "C17" => { o.revb_pct = 5; o.boundary_pct = 3; }
-            "ALL" => { o.drain = true; o.exit_probes = true; o.auth_pct = 5; o.boundary_pct = 5; o.revb_pct = 5; o.query_pct = 5; }
+            "ALL" => { o.drain = true; o.exit_probes = true; o.auth_pct = 5; o.boundary_pct = 5; o.revb_pct = 5; o.query_pct = 5; o.approve_pct = 5; }
             _ => { o.boundary_pct = 2; o.revb_pct = 2; }
         }
         o
@@ -87,6 +89,9 @@ impl History {
                         }
                         if r.chance(opts.revb_pct) {
                             reverse_boundary(&self.w, &self.h, &ctx.post_book, cfg, r, st, &mut viols);
+                        }
+                        if r.chance(opts.approve_pct) {
+                            approve_probes(&self.w, &self.h, &ctx.post_book, cfg, r, st, &mut viols);
                         }
                         if r.chance(opts.query_pct) {
                             query_battery(&self.w, &self.h, &ctx.post_book, r, st, &mut viols);
